@@ -89,7 +89,9 @@ InlineComplex(doc, xk) ==
 C03_Complete(doc, xk) == InlineComplex(doc, xk) = {}
 C03_Unique(b0, doc, fold) ==
   \A n \in Defs(doc) \ Defs(RootOf(b0)) : \A m \in Defs(doc) \ {n} : fold[n] # fold[m]
-C03(b0, doc, xk, fold) == C03_Complete(doc, xk) /\ C03_Unique(b0, doc, fold)
+\* "each such schema has become a named definition referenced from where it was": what stands where a schema was must designate a definition
+C03_Named(doc) == \A x \in RefsIn(doc) : x[2][1] = "root" /\ Len(x[2]) = 3 /\ x[2][2] = "definitions" => x[2][3] \in Defs(doc)
+C03(b0, doc, xk, fold) == C03_Complete(doc, xk) /\ C03_Unique(b0, doc, fold) /\ C03_Named(doc)
 
 \* ---- C05 ------------------------------------------------------------------------------------
 C05_Targets(doc) == \A x \in RefsIn(doc) : CanonicalRef(doc, x[2])
